@@ -162,23 +162,9 @@ func runC02(c *Ctx) {
 
 	// R4: callee gone
 	const r4 = "C02.R4 departing callee's invocations are cancelled"
-	rs := dlr + "syncRemoveSession"
-	goneCancel := `^call:router\.\(\*dealer\)\.syncCancel\(%d, %d\.calls\[range\(%d\.invocations\)#v\.callID\],ok#0, new\(wamp\.Cancel\), "skip", "wamp\.error\.canceled", `
-	c.Guard(r4, rs, "cancel for departed callee", goneCancel, 1,
-		clause("invocation is served by the leaving session", T(`^\(%sess == range\(%d\.invocations\)#v\.callee\)$`)),
-		clause("call pending", T(`^%d\.calls\[range\(%d\.invocations\)#v\.callID\],ok#1$`)))
-	c.Fields(r4, rs, "CANCEL literal", "wamp.Cancel", nil, map[string]string{"Request": `^range\(%d\.invocations\)#v\.callID\.request$`}, 1)
-	// every invocation of the leaving callee with a pending call reaches the cancel
-	c.Reach(r4, rs, "no served invocation skipped", ReachSpec{
-		From: "", Stop: goneCancel, Cut: []ir.Clause{
-			clause("other callee", F(`^\(%sess == range\(%d\.invocations\)#v\.callee\)$`)),
-			clause("no pending call", F(`^%d\.calls\[range\(%d\.invocations\)#v\.callID\],ok#1$`)),
-			clause("loop over invocations done", F(`^next:range\(%d\.invocations\)#more$`))},
-		Target: `^call:builtin:delete\(%d\.calls, range\(%d\.calls\)#k\)$|^return:`, Want: false})
-	// D28: a kill-mode cancel outstanding must not swallow the callee-gone reply
-	c.Reach(r4, rs, "outstanding kill-mode cancel does not suppress the reply (canceled mark cleared first)", ReachSpec{
-		Stop: `^store:range\(%d\.invocations\)#v\.&canceled=false$`, Target: goneCancel, Want: false})
-	c.R.Floor(r4, 5)
+	ruleCalleeGone(c, r4)
+	ruleDealerRemoval(c, r4)
+	c.R.Floor(r4, 12)
 
 	// R5: timer
 	const r5 = "C02.R5 call timeout timer"
@@ -189,21 +175,8 @@ func runC02(c *Ctx) {
 	c.Has(r5, t2, "timeout cancels as killnowait with wamp.error.timeout",
 		`^call:router\.\(\*dealer\)\.syncCancel\(\^d, \^caller, new\(wamp\.Cancel\), "killnowait", "wamp\.error\.timeout", `, 1)
 	c.Fields(r5, t2, "CANCEL literal", "wamp.Cancel", nil, map[string]string{"Request": `^\^msg\.Request$`}, 1)
-	// the timer is stopped on every final path
-	for _, f := range []struct{ fn, guard string }{
-		{se, `^call:dyn:%d\.invocations\[` + dInvkKey + `\],ok#0\.timerCancel\(\)$`},
-		{scn, `^call:dyn:%d\.invocations\[` + cnInv + `\],ok#0\.timerCancel\(\)$`},
-		{sy, `^call:dyn:%d\.invocations\[` + dInvkKey + `\],ok#0\.timerCancel\(\)$`},
-	} {
-		c.Has(r5, f.fn, "stops the call's timer", f.guard, 1)
-	}
-	c.Reach(r5, sy, "final result stops the timer when one exists", ReachSpec{
-		Stop: `^call:dyn:.*\.timerCancel\(\)$`, Cut: []ir.Clause{prog, clause("no timer", T(`^\(.*\.timerCancel == nil\)$`))}, Target: resSelect, Want: false})
-	c.Reach(r5, se, "error stops the timer when one exists", ReachSpec{
-		Stop: `^call:dyn:.*\.timerCancel\(\)$`, Cut: []ir.Clause{clause("no timer", T(`^\(.*\.timerCancel == nil\)$`))}, Target: seSend, Want: false})
-	c.Reach(r5, scn, "cancel stops the timer when one exists", ReachSpec{
-		Stop: `^call:dyn:.*\.timerCancel\(\)$`, Cut: []ir.Clause{clause("no timer", T(`^\(.*\.timerCancel == nil\)$`))}, Target: cnSend, Want: false})
-	c.Has(r5, rs, "session removal stops timers (both loops)", `^call:dyn:.*\.timerCancel\(\)$`, 2)
+	ruleTimerStoppedOnFinal(c, r5)
+	ruleTimersStoppedOnRemoval(c, r5)
 	c.R.Floor(r5, 11)
 
 	// R6: who may answer a call
@@ -246,4 +219,59 @@ func runC02(c *Ctx) {
 	const r9 = "C02.R9 a router-handled timeout arms the timer"
 	ruleTimeout(c, r9)
 	c.R.Floor(r9, 12)
+}
+
+// ruleCalleeGone: every invocation a departing callee was serving is cancelled towards its caller, also when a
+// kill-mode cancel is outstanding.
+func ruleCalleeGone(c *Ctx, r4 string) {
+	rs := dlr + "syncRemoveSession"
+	goneCancel := `^call:router\.\(\*dealer\)\.syncCancel\(%d, %d\.calls\[range\(%d\.invocations\)#v\.callID\],ok#0, new\(wamp\.Cancel\), "skip", "wamp\.error\.canceled", `
+	c.Guard(r4, rs, "cancel for departed callee", goneCancel, 1,
+		clause("invocation is served by the leaving session", T(`^\(%sess == range\(%d\.invocations\)#v\.callee\)$`)),
+		clause("call pending", T(`^%d\.calls\[range\(%d\.invocations\)#v\.callID\],ok#1$`)))
+	c.Fields(r4, rs, "CANCEL literal", "wamp.Cancel", nil, map[string]string{"Request": `^range\(%d\.invocations\)#v\.callID\.request$`}, 1)
+	// every invocation of the leaving callee with a pending call reaches the cancel
+	c.Reach(r4, rs, "no served invocation skipped", ReachSpec{
+		From: "", Stop: goneCancel, Cut: []ir.Clause{
+			clause("other callee", F(`^\(%sess == range\(%d\.invocations\)#v\.callee\)$`)),
+			clause("no pending call", F(`^%d\.calls\[range\(%d\.invocations\)#v\.callID\],ok#1$`)),
+			clause("loop over invocations done", F(`^next:range\(%d\.invocations\)#more$`))},
+		Target: `^call:builtin:delete\(%d\.calls, range\(%d\.calls\)#k\)$|^return:`, Want: false})
+	// D28: a kill-mode cancel outstanding must not swallow the callee-gone reply
+	c.Reach(r4, rs, "outstanding kill-mode cancel does not suppress the reply (canceled mark cleared first)", ReachSpec{
+		Stop: `^store:range\(%d\.invocations\)#v\.&canceled=false$`, Target: goneCancel, Want: false})
+}
+
+// ruleTimersStoppedOnRemoval: a call forgotten because its caller or callee left has its timeout timer stopped (else
+// the timer goroutine outlives the call and dealer.close waits for it).
+func ruleTimersStoppedOnRemoval(c *Ctx, r5 string) {
+	c.Has(r5, dlr+"syncRemoveSession", "session removal stops timers (both loops)", `^call:dyn:.*\.timerCancel\(\)$`, 2)
+}
+
+// ruleTimerStoppedOnFinal: whatever ends a call (final RESULT, ERROR from the callee, CANCEL) stops its timeout timer
+// first, so that a timeout can never act on a call that already completed.
+func ruleTimerStoppedOnFinal(c *Ctx, r5 string) {
+	se := dlr + "syncError"
+	seCall := `%d\.invocations\[` + dInvkKey + `\],ok#0\.callID`
+	seSend := dTrySendTo + `%d\.calls\[` + seCall + `\],ok#0, new\(wamp\.Error\)\)$`
+	scn := dlr + "syncCancel"
+	cnInv := `%d\.invocationByCall\[` + dCallKey + `\],ok#0`
+	cnSend := dTrySendTo + `%caller, new\(wamp\.Error\)\)$`
+	sy := dlr + "syncYield"
+	resSelect := `^select\{send:call:invoke:wamp\.Peer\.Send\[.*\]\(\)<-new\(wamp\.Result\);default\}$`
+	prog := clause("progressive result", T(`^%progress$`))
+	// the timer is stopped on every final path
+	for _, f := range []struct{ fn, guard string }{
+		{se, `^call:dyn:%d\.invocations\[` + dInvkKey + `\],ok#0\.timerCancel\(\)$`},
+		{scn, `^call:dyn:%d\.invocations\[` + cnInv + `\],ok#0\.timerCancel\(\)$`},
+		{sy, `^call:dyn:%d\.invocations\[` + dInvkKey + `\],ok#0\.timerCancel\(\)$`},
+	} {
+		c.Has(r5, f.fn, "stops the call's timer", f.guard, 1)
+	}
+	c.Reach(r5, sy, "final result stops the timer when one exists", ReachSpec{
+		Stop: `^call:dyn:.*\.timerCancel\(\)$`, Cut: []ir.Clause{prog, clause("no timer", T(`^\(.*\.timerCancel == nil\)$`))}, Target: resSelect, Want: false})
+	c.Reach(r5, se, "error stops the timer when one exists", ReachSpec{
+		Stop: `^call:dyn:.*\.timerCancel\(\)$`, Cut: []ir.Clause{clause("no timer", T(`^\(.*\.timerCancel == nil\)$`))}, Target: seSend, Want: false})
+	c.Reach(r5, scn, "cancel stops the timer when one exists", ReachSpec{
+		Stop: `^call:dyn:.*\.timerCancel\(\)$`, Cut: []ir.Clause{clause("no timer", T(`^\(.*\.timerCancel == nil\)$`))}, Target: cnSend, Want: false})
 }
